@@ -155,6 +155,52 @@ class FakeInterface:
             asyncio.get_running_loop().call_soon(self.xknx.cemi_handler.handle_raw_cemi, con)
 
 
+class ScriptedInterface:
+    """Interface double with a scripted outcome per hand-off; `wire` is what really left (in hand-off order).
+
+    outcomes: "ok" (recorded, L_Data.con follows), "slow" (recorded, confirmation after a virtual delay),
+    "fail_after" (recorded = transmitted, then CommunicationError: what the UDP tunnel does when the acks are lost),
+    "fail_before" (CommunicationError before anything left), "noconf" (recorded, never confirmed -> ConfirmationError).
+    """
+
+    def __init__(self, xknx: XKNX, outcomes: list[str]) -> None:
+        self.xknx = xknx
+        self.outcomes = list(outcomes)
+        self.calls = 0
+        self.wire: list[tuple[bytes, str]] = []
+        self.sent: list[tuple[CEMIFrame, bytes]] = []
+
+    async def start(self) -> None:
+        return
+
+    async def stop(self) -> None:
+        return
+
+    def _confirm(self, raw: bytes) -> None:
+        con = bytes((CEMIMessageCode.L_DATA_CON.value,)) + bytes(raw[1:])
+        self.xknx.cemi_handler.handle_raw_cemi(con)
+
+    async def send_cemi(self, cemi: CEMIFrame) -> None:
+        from xknx.exceptions import CommunicationError
+
+        outcome = self.outcomes[self.calls % len(self.outcomes)] if self.outcomes else "ok"
+        self.calls += 1
+        if outcome == "fail_before":
+            raise CommunicationError("not connected")
+        raw = bytes(cemi.to_knx())
+        self.wire.append((raw, outcome))
+        self.sent.append((cemi, raw))
+        loop = asyncio.get_running_loop()
+        if outcome == "fail_after":
+            await asyncio.sleep(1.0)  # waited for the acknowledgement in vain
+            raise CommunicationError("Sending TunnellingRequest failed twice.")
+        if outcome == "slow":
+            await asyncio.sleep(0.3)
+            loop.call_later(0.2, self._confirm, raw)
+        elif outcome == "ok":
+            loop.call_soon(self._confirm, raw)
+
+
 class Node:
     """One real XKNX with Data Secure tables given as plain dicts."""
 
@@ -176,6 +222,10 @@ class Node:
         self.xknx.knxip_interface = self.iface  # type: ignore[assignment]
         self.key_issues: list[Telegram] = []
         self.xknx.telegram_queue.register_data_secure_group_key_issue_cb(self.key_issues.append)
+
+    def use_interface(self, iface: Any) -> None:
+        self.iface = iface
+        self.xknx.knxip_interface = iface
 
     # -- receive side -----------------------------------------------------
     def feed(self, raw: bytes, drain: bool = True) -> Outcome:
